@@ -98,10 +98,10 @@ Theorem C12_release_same_class_default : forall mmap gsz st w top st',
 Proof. exact release_same_class_default. Qed.
 Print Assumptions C12_release_same_class_default.
 
-(** The full-strength statement "every custom stack size the setter accepts gets a stack of that
-    size" is refuted (finding C12-stack-size-above-1GiB; the real library crashes, see notes/C12.md):
-    for a request above 2^30 (up to 2^32) the model of get_new_myth_thread_struct_stack leaves
-    the free-list array in every state ... *)
+(** The UNGUARDED arithmetic (get_new_myth_thread_struct_stack called with any size, as the
+    library did before commit a6d2bdf: defect C12-stack-size-above-1GiB, the real library
+    crashed) does not serve every size: for a request above 2^30 (up to 2^32) it leaves the
+    free-list array in every state ... *)
 Theorem C12_custom_size_above_1GiB_refuted : forall mmap gsz st w n,
   (2 ^ 30 < n)%Z -> (n + 4095 <= 2 ^ 32)%Z ->
   exists i, stack_get mmap gsz st w n = SOutOfRange i /\ (31 <= i <= 32)%Z.
@@ -109,13 +109,45 @@ Proof. exact stack_above_1GiB_out_of_range. Qed.
 Print Assumptions C12_custom_size_above_1GiB_refuted.
 
 (** ... and a request of 4 GiB + 4 KiB is served with a 4 KiB block whose "top" lies 4 GiB above
-    it.  [C12_release_same_class] is the partial statement under the exact guard (rounded size
-    at most 2^30) that excludes these sizes. *)
+    it.  The guard below excludes exactly these sizes. *)
 Theorem C12_custom_size_4GiB_refuted : forall mmap gsz w,
   exists top st', stack_get mmap gsz s_init w (2 ^ 32 + 4096) = SOk top st' /\
     fl_regs (s_fl st') = [(mmap [] 4096, 4096)%Z] /\ top = (mmap [] 4096 + (2 ^ 32 + 4096) - 16)%Z.
 Proof. exact stack_4GiB_refuted. Qed.
 Print Assumptions C12_custom_size_4GiB_refuted.
+
+(** The guard of the public API (commit a6d2bdf), total over every value a size_t can hold:
+    the setter returns EINVAL and leaves the attribute unchanged exactly for sizes above 2^30 ... *)
+Theorem C12_setstacksize_guard : forall old s,
+  ((2 ^ 30 < s)%Z -> attr_setstacksize old s = (EINVAL, old)) /\
+  ((s <= 2 ^ 30)%Z -> attr_setstacksize old s = (0%Z, s)).
+Proof. exact attr_setstacksize_spec. Qed.
+Print Assumptions C12_setstacksize_guard.
+
+(** ... a creation with a (possibly hand-filled) attribute returns EINVAL without allocating
+    anything exactly for those sizes, and for every other value it obtains a stack (the
+    unguarded arithmetic never leaves its range, never runs out of fuel) ... *)
+Theorem C12_guarded_create_total : forall mmap gsz st w n, (0 <= n < 2 ^ 64)%Z ->
+  ((2 ^ 30 < n)%Z -> create_stack mmap gsz st w n = CEinval) /\
+  ((n <= 2 ^ 30)%Z ->
+     exists top st', create_stack mmap gsz st w n = CCreated top st' /\
+                     stack_get mmap gsz st w n = SOk top st' /\
+                     ((1 <= n)%Z -> (round_page n <= 2 ^ 30 /\ n + 4095 < 2 ^ 64)%Z)).
+Proof. exact guarded_create_total. Qed.
+Print Assumptions C12_guarded_create_total.
+
+(** ... and what the API accepts it serves: a stack of at least the requested size inside one
+    block, whose release recomputes that block and class. *)
+Theorem C12_accepted_size_served : forall mmap gsz st w n, (1 <= n <= 2 ^ 30)%Z ->
+  exists top st' b i,
+    create_stack mmap gsz st w n = CCreated top st' /\
+    size_class (round_page n) = Class i (2 ^ i) /\
+    (n <= round_page n <= 2 ^ i)%Z /\
+    top = (b + round_page n - 16)%Z /\ (b <= top)%Z /\ (top + 16 <= b + 2 ^ i)%Z /\
+    load (s_mem st') (top + 8) = round_page n /\
+    (forall m, load m (top + 8) = round_page n -> release_target m top = RClass i b).
+Proof. exact accepted_size_served. Qed.
+Print Assumptions C12_accepted_size_served.
 
 (** * (2) blocks never overlap *)
 
